@@ -65,6 +65,7 @@ fn replay(path: &str) {
     let r = ds::run_one(&choices, &cfg, mk());
     println!("harness={name} params={}", v["params"]);
     println!("choices={choices:?} preemptions={}", r.preemptions());
+    println!("decisions (arity, chosen, current-still-enabled, data): {:?}", r.trace.iter().map(|d| (d.n, d.chosen, d.cur_enabled, d.data)).collect::<Vec<_>>());
     for (n, op) in &r.ops {
         println!("  op {n}: {op:?}");
     }
@@ -87,6 +88,23 @@ fn main() {
     let raw: Vec<String> = std::env::args().collect();
     if raw.len() == 4 && raw[1] == "--hist-child" {
         c08::hist_child(&raw[2], &raw[3]);
+        return;
+    }
+    if raw.len() >= 3 && raw[1] == "--explore" {
+        // debugging aid: explore one harness configuration (a replay-style JSON) and print what was found
+        let v: Value = serde_json::from_slice(&std::fs::read(&raw[2]).expect("file")).expect("json");
+        let v = if v.get("replay").is_some() { v["replay"].clone() } else { v };
+        let name = v["harness"].as_str().unwrap().to_string();
+        let (mk, mut judge) = harness(&name, &v["params"]);
+        let bound = raw.get(3).and_then(|b| b.parse().ok()).unwrap_or(2);
+        let mut res = vcommon::SubResult::new("", "explore");
+        let mut e = util::Exp { res: &mut res, harness: &name, params: v["params"].clone(), bound, max_exec: 2_000_000, cfg: ds::Config { writer_pref: v["writer_pref"].as_bool().unwrap_or(false), horizon: 0, record_ops: true } };
+        let st = e.run(&*mk, &mut |r| judge(r));
+        println!("{st:?}");
+        for v in &res.violations {
+            println!("{}: {} choices={}", v.key, v.desc, v.replay["choices"]);
+        }
+        println!("distinct outcomes: {}", res.distinct.len());
         return;
     }
     let args = vcommon::parse_args();
